@@ -264,7 +264,8 @@ class Driver:
         """op: concrete call (dict).  Returns the trace event."""
         t = self.tdf
         kind = op["op"]
-        ev = dict(op=kind, t=0, u=0, sz=0, fmt=0, c=0, cok=True, bad="none", cd=0, md=0)
+        ev = dict(op=kind, t=0, u=0, sz=0, fmt=0, c=0, cok=True, bad="none", cd=0, md=0, leak=False)
+        self.copy_leak = False
         call = None
         if kind in ("add", "replace", "set"):
             rt = op["rt"]
@@ -334,6 +335,7 @@ class Driver:
                 raise
             res = dict(ok=False, mro=[c.__name__ for c in type(x).__mro__])
         ev["res"] = res
+        ev["leak"] = bool(self.copy_leak)
         ev["obs"] = self.observe()
         return ev
 
@@ -376,7 +378,33 @@ class Driver:
                 if os.path.exists(target):
                     os.unlink(target)
                 try:
-                    t.copy(target)
+                    cp = t.copy(target)
+                    # the copy is a new object on which allow_write() was never called: whatever mode
+                    # the original is in, a mutation through the copy must be refused
+                    if isinstance(cp, Tdf) and os.path.exists(target):
+                        before = open(target, "rb").read()
+                        live = [e["type"] for e in refio.parse(before).table if e["type"] != 0]
+
+                        def mutate(obj):
+                            if live:
+                                obj.remove_block(BlockType(live[0]))
+                            else:
+                                obj.add_block(blocks.make_block(16, 1, 4242))
+                        for attempt in ("bare", "context"):
+                            try:
+                                if attempt == "bare":
+                                    mutate(cp)
+                                else:
+                                    with cp as f:
+                                        mutate(f)
+                                self.copy_leak = True
+                            except Exception:  # noqa: BLE001
+                                pass
+                            h = getattr(cp, "handler", None)
+                            if attempt == "context" and h is not None and not h.closed and h is not getattr(t, "handler", None):
+                                h.close()
+                        if open(target, "rb").read() != before:
+                            self.copy_leak = True
                 finally:
                     if os.path.exists(target):
                         os.unlink(target)
